@@ -1059,7 +1059,7 @@ func (st *wstate) preEdit(n int) {
 
 func cfgUpd(lf *model.Life, c *scen.Call) *bool {
 	if cfg := lf.Cfg(c); cfg != nil {
-		return cfg.Update
+		return cfg.EffUpdate()
 	}
 	return nil
 }
